@@ -133,7 +133,13 @@ func (ev *Evidence) write(start time.Time) {
 			"bounds are those stated in the harness sources (verifInt ranges, loop/step/path caps); inputs outside are not covered",
 		},
 	}
-	os.MkdirAll(filepath.Join(verifDir, "evidence"), 0o755)
+	// evidence describes runs against /repo itself; a run against another tree (VERIF_REPO, used
+	// for seeded changes in scratch worktrees) must not overwrite it
+	dir := filepath.Join(verifDir, "evidence")
+	if filepath.Clean(repoDir) != "/repo" {
+		dir = filepath.Join(os.TempDir(), "gosmt-evidence-scratch")
+	}
+	os.MkdirAll(dir, 0o755)
 	data, _ := json.MarshalIndent(doc, "", " ")
-	os.WriteFile(filepath.Join(verifDir, "evidence", ev.Prop+".json"), data, 0o644)
+	os.WriteFile(filepath.Join(dir, ev.Prop+".json"), data, 0o644)
 }
